@@ -44,14 +44,9 @@ META = dict(
 
 # name of the KF_ switch, finding id, what fails
 KFS = [
- ('MapSlices', 'F8', 'sorted_map index slices are bounds-checked by assert only: a message whose slice lies outside the base '
-                     'buffer (or a zero-length key) deserializes successfully; find()/iteration then read (and write) out of bounds'),
- ('FixedLen', 'F8b', 'fixed_buffer<T> accepts any wire length: get() hands out a T* to fewer than sizeof(T) bytes'),
- ('NestedAligned', 'F13', 'aligned_buffer / aligned_iovec_array inside an embedded message is neither serialized nor deserialized '
-                          '(ArchiveBase catch-all overload): the receiver sees the sender\'s pointer and length'),
- ('ArrayWalk', 'F14', 'array<Message>: after the claim of the array fails (short input) the elements are still walked at address 0: '
-                      'SIGSEGV inside deserialize()'),
- ('Checksum', 'F15', 'CheckedMessage: the checksum member is itself the running hash while the body is hashed, which cancels '
+ # F8 (MapSlices), F23 (FixedLen), F24 (NestedAligned), F25 (ArrayWalk) were repaired by fix: commits in /repo (see known-findings.json);
+ # their KF_ switches stay in the specification (FALSE everywhere) as documentation of the pre-repair behaviour.
+ ('Checksum', 'F26', 'CheckedMessage: the checksum member is itself the running hash while the body is hashed, which cancels '
                      'everything hashed before it: altered bytes in the variable-length part are accepted'),
 ]
 
@@ -108,7 +103,10 @@ def judge(ctx, rows, what='case'):
     ctx.traces_ok += len(rows) - len(mm)
     left = sorted(mm)
     explained = {}
-    if left and not os.environ.get('C12_NO_KF'):
+    listed = {f.get('id') for f in ctx.kf.get('open', []) if f.get('property') == 'C12'}
+    global KFS
+    KFS = [k for k in KFS if k[1] in listed]      # a deviation is tolerated only while it is listed open in known-findings.json
+    if left and KFS and not os.environ.get('C12_NO_KF'):
         # re-judge the rejected cases with each single deviation (and, last resort, all of them) enabled
         sub = [rows[i] for i in left]
         names = [k[0] for k in KFS] + ['all']
@@ -126,7 +124,7 @@ def judge(ctx, rows, what='case'):
         for i in ok:
             explained[i] = 'combination'
         if ok:   # only the combination of the known deviations explains these (two findings meet in one case)
-            ctx.known('F8+', f'several of the findings above meet in one case [{len(ok)} recorded cases, e.g. id {rows[ok[0]].get("id")}]')
+            ctx.known('F26+', f'several of the findings above meet in one case [{len(ok)} recorded cases, e.g. id {rows[ok[0]].get("id")}]')
     for i in [i for i in left if i not in explained]:
         row = rows[i]
         if len(ctx.violations) < 5:
